@@ -73,6 +73,8 @@ def build_part(spec, only_ids=None):
         p.add(S.KeySignature(f, m), t)
     for i, (s, e) in enumerate(spec["measures"]):
         p.add(S.Measure(number=i + 1), s, e)
+    if spec.get("repeat"):
+        p.add(S.Repeat(), spec["repeat"][0], spec["repeat"][1])
     objs = {}
     notes = [n for n in spec["notes"] if only_ids is None or n["id"] in only_ids]
     add_notes(p, objs, notes)
@@ -638,6 +640,9 @@ def compare_table(got_rows, exp_rows, names, rests=False, optional=(), final_ids
     for g in got_rows:
         cands = by_id.get(g["id"])
         if not cands:
+            if g["id"] == "scribbled":
+                return ("the returned array shares its data with an array returned EARLIER (the harness wrote 'scribbled' / 7 into "
+                        "every array it had been given; this one came back with those values)"), None
             return ("row with id %r does not belong to a sounding note of the score (or appears more often than "
                     "in the score)" % g["id"]), None
         first = None
@@ -687,6 +692,7 @@ def check_part(spec, opts, rests=False, part=None):
             return "rejected", "declared: several divisions with include_divs_per_quarter", None, maps
         return "FAIL", "%s raised %s: %s" % ("rest_array" if rests else "note_array", type(res).__name__, res), None, maps
     rows = array_rows(res)
+    scribble(res)            # the caller owns the array: nothing may be shared with a later result
     msg, matched = compare_table(rows, exp, res.dtype.names, rests=rests)
     if msg:
         return "FAIL", msg, rows, maps
@@ -1021,7 +1027,7 @@ def run_coq(ctx, name, terms, cases, checker, what):
         ctx.obligation("correspondence: %s on 0 cases" % what, False, "no case generated")
         return
     try:
-        failing = ctx.coq_failing(name, "From PV Require Import Lib.Base Model.C05 Model.C05_Ext Model.C05_Inv Model.C05_Disp Model.C05_Voice.\nFrom Coq Require Import QArith.", "", terms, checker, shard=40)
+        failing = ctx.coq_failing(name, "From PV Require Import Lib.Base Model.C05 Model.C05_Ext Model.C05_Inv Model.C05_Disp Model.C05_Voice Model.C05_Hist.\nFrom Coq Require Import QArith.", "", terms, checker, shard=40)
     except RuntimeError as e:
         ctx.obligation("correspondence: %s" % what, False, str(e)[-1500:])
         ctx.violation("correspondence machinery failed for %s: %s" % (name, str(e)[-800:]), {"stage": name}, no_input=True)
@@ -1033,10 +1039,65 @@ def run_coq(ctx, name, terms, cases, checker, what):
         ctx.violation("model/implementation disagree: %s" % what, c)
 
 
+def scribble(arr):
+    """Write into a returned array (the caller owns it): a later call must not serve this object, or data shared with it."""
+    try:
+        if arr is not None and len(arr):
+            for nm in arr.dtype.names:
+                if nm in ("onset_div", "duration_div", "pitch", "voice", "onset_beat", "onset_quarter", "divs_pq"):
+                    arr[nm] = 7
+                elif nm == "id":
+                    arr[nm] = "scribbled"
+    except Exception:
+        pass
+
+
+ATTR_VALUES = {"voice": [None, 0, 1, 2, 4], "staff": [None, 0, 1, 2, 3], "step": STEPS, "alter": [None, 0, 1, -1, 2],
+               "oct": [1, 2, 3, 4, 5, 6, 7]}
+
+
+def gen_attr_edits(rng, n=None, allow_id=True):
+    """Edits of existing notes through their attributes (note.voice = ..., note.step = ..., note.id = ...)."""
+    out = []
+    for k in range(n or rng.randint(1, 3)):
+        attr = rng.choice(["voice", "voice", "staff", "step", "alter", "oct"] + (["id"] if allow_id else []))
+        val = ("y%d_%d" % (k, rng.randrange(1000))) if attr == "id" else rng.choice(ATTR_VALUES[attr])
+        out.append({"note": rng.randrange(0, 64), "attr": attr, "value": val})
+    return out
+
+
+def apply_attr_edits(spec, objs, edits):
+    """Apply attribute edits to the note objects and return the specification of the part as it is afterwards."""
+    notes = [dict(n) for n in spec["notes"]]
+    sounding = [n for n in notes if not n.get("rest")]
+    for ed in edits:
+        if not sounding:
+            break
+        n = sounding[ed["note"] % len(sounding)]
+        o = objs[n["id"]]
+        a, v = ed["attr"], ed["value"]
+        if a == "id":
+            if any(m["id"] == v for m in notes):
+                continue
+            old = n["id"]
+            o.id = v
+            for m in notes:
+                if m.get("tie_next") == old:
+                    m["tie_next"] = v
+            n["id"] = v
+            objs[v] = objs.pop(old)
+        else:
+            setattr(o, "octave" if a == "oct" else a, v)
+            n[a] = v
+    out = dict(spec)
+    out["notes"] = notes
+    return out
+
+
 # ---- histories: the array is a table of the score AS IT IS NOW
 
 
-def check_history(spec, first_ids, opts1, opts2, rests=False):
+def check_history(spec, first_ids, opts1, opts2, rests=False, third=None):
     """Build the part with the notes in first_ids only, read its array (opts1), add the remaining notes
     and tie links, read the array again (opts2): each reading must be the table of the score at that moment.
     Returns (None | message, rows of the second reading, the part)."""
@@ -1044,7 +1105,7 @@ def check_history(spec, first_ids, opts1, opts2, rests=False):
     part, objs = build_part(spec, only_ids=first_ids)
     st, msg, rows, maps = check_part(first, opts1, rests, part=part)
     if st == "FAIL":
-        return "first reading (before the score was extended): " + msg, None, None
+        return "first reading (before the score was extended): " + msg, None, None, None
     # read the other array and the maps as well (anything that might be cached)
     call_note_array(part, {k: v for k, v in opts1.items() if k in REST_OPT_NAMES}, rests=not rests)
     rest = [n for n in spec["notes"] if n["id"] not in first_ids]
@@ -1052,10 +1113,30 @@ def check_history(spec, first_ids, opts1, opts2, rests=False):
     link_notes(objs, spec["notes"])
     st, msg, rows, maps = check_part(spec, opts2, rests, part=part)
     if st == "FAIL":
-        return "second reading (after %d more notes and their ties were added): %s" % (len(rest), msg), None, None
+        return "second reading (after %d more notes and their ties were added): %s" % (len(rest), msg), None, None, None
     if st != "ok":
-        return None, None, None
-    return None, rows, part
+        return None, None, None, None
+    if not third:
+        return None, rows, part, spec
+    # third phase: the notes are edited through their attributes, a key signature is added, the divisions are changed
+    spec3 = apply_attr_edits(spec, objs, third.get("attrs", []))
+    if third.get("ks"):
+        import partitura.score as S
+        t, f, m = third["ks"]
+        if all(x[0] != t for x in spec3["ks"]):
+            part.add(S.KeySignature(f, m), t)
+            spec3["ks"] = sorted(spec3["ks"] + [[t, f, m]])
+    if third.get("qd") and len(spec3["qd"]) == 1:
+        part.set_quarter_duration(0, third["qd"])
+        spec3["qd"] = [[0, third["qd"]]]
+    st, msg, rows3, maps = check_part(spec3, opts2, rests, part=part)
+    if st == "FAIL":
+        return ("third reading (after the notes were edited through their attributes %s%s%s): %s"
+                % (json.dumps(third.get("attrs", [])), ", a key signature was added" if third.get("ks") else "",
+                   ", the divisions were set to %s" % third["qd"] if third.get("qd") else "", msg)), None, None, None
+    if st != "ok":
+        return None, rows, part, spec
+    return None, rows3, part, spec3
 
 
 def stage_history(ctx, n, mp_ok):
@@ -1074,21 +1155,35 @@ def stage_history(ctx, n, mp_ok):
         if rests:
             opts1 = {k: v for k, v in opts1.items() if k in REST_OPT_NAMES}
             opts2 = {k: v for k, v in opts2.items() if k in REST_OPT_NAMES}
-        msg, rows, part = check_history(spec, first_ids, opts1, opts2, rests)
-        ctx.evaluations += 2
+        third = None
+        if rng.random() < 0.7:
+            third = {"attrs": gen_attr_edits(rng)}
+            free = [m[0] for m in spec["measures"] if all(k[0] != m[0] for k in spec["ks"])]
+            if free and rng.random() < 0.45:
+                third["ks"] = [rng.choice(free), rng.randint(-7, 7), rng.choice(["major", "minor", None])]
+                if rng.random() < 0.7:           # the column the new signature shows in, asked for before and after
+                    opts1 = dict(opts1, include_key_signature=True)
+                    opts2 = dict(opts2, include_key_signature=True)
+            if rng.random() < 0.3:
+                third["qd"] = rng.choice([d for d in (1, 2, 3, 4, 6, 8, 12) if d != spec_divs(spec)])
+            ctx.count("history:third=" + "+".join(sorted(third)))
+        msg, rows, part, spec_now = check_history(spec, first_ids, opts1, opts2, rests, third)
+        ctx.evaluations += 3 if third else 2
         ctx.count("history:" + ("FAIL" if msg else "ok"))
         if msg:
-            ctx.violation("%s read, extended, read again: %s" % ("rest_array" if rests else "note_array", msg),
-                          {"kind": "history", "spec": spec, "first_ids": first_ids, "opts1": opts1, "opts2": opts2, "rests": rests, "message": msg})
+            ctx.violation("%s read, extended, read again, edited, read again: %s" % ("rest_array" if rests else "note_array", msg),
+                          {"kind": "history", "spec": spec, "first_ids": first_ids, "opts1": opts1, "opts2": opts2, "rests": rests,
+                           "third": third, "message": msg})
             continue
-        ctx.nontrivial(("history", spec, first_ids, opts1, opts2, rests))
+        ctx.nontrivial(("history", spec, first_ids, opts1, opts2, rests, third))
         if rows is not None and (rows or not rests) and len(terms) < n // 2 + 1:
-            term = c_part_case(spec, part, opts2, rows, rests)
+            term = c_part_case(spec_now, part, opts2, rows, rests)
             if term is not None:
                 terms.append(term)
-                cases.append({"kind": "history", "spec": spec, "first_ids": first_ids, "opts1": opts1, "opts2": opts2, "rests": rests})
+                cases.append({"kind": "history", "spec": spec, "first_ids": first_ids, "opts1": opts1, "opts2": opts2, "rests": rests, "third": third})
     run_coq(ctx, "history", terms, cases, PART_CHECKER,
-            "model note_array/rest_array of the final score = second reading of a part that was read, extended and read again")
+            "model note_array/rest_array of the final score = last reading of a part that was read, extended, read again, edited through "
+            "the attributes of its notes / a new key signature / new divisions and read again")
 
 
 # ---- scores
@@ -1195,8 +1290,15 @@ def check_score(specs, opts, uniq, via="score", shape=None):
         arr, eff = call_score_array(specs, parts, shape, via, uniq, opts)
     except Exception as e:
         return "FAIL", "%s raised %s: %s" % (via, type(e).__name__, e), None, None, None
+    return judge_score_array(arr, specs, per_part, opts, uniq, eff)
+
+
+def judge_score_array(arr, specs, per_part, opts, uniq, eff):
+    """The array of a container against the tables of the parts it holds (per_part: expected_score_rows of them, in
+    the order of the leaves of the arrangement eff).  Returns (status, message, rows, names, eff)."""
     rows = array_rows(arr)
     names = arr.dtype.names
+    scribble(arr)            # the caller owns the array: nothing may be shared with a later result
     exp = [r for rows_i in per_part for r in rows_i]
     # the divs_pq column is only promised when asked for (the implementation always has it)
     optional = () if opts.get("include_divs_per_quarter") else ("divs_pq",)
@@ -1396,6 +1498,451 @@ def shrink_score(specs, still_fails):
     return specs
 
 
+# ---- sessions: state carried between calls.  A container (Score, list, PartGroup) is kept, changed through the public
+#      API (a part edited in place, score[i] = part, members[i] = part, append, score = unfold_part_*(score)) and read
+#      again and again through every entry point; each reading is judged against what the container holds AT THAT MOMENT.
+
+
+SESSION_KINDS = ["score"] * 5 + ["score_of_groups"] * 2 + ["list"] * 2 + ["partgroup"] * 2
+SCORE_READS = ["score", "score", "score", "ensure_score", "ensure_score", "from_list", "ensure_list", "partgroup", "ensure_partgroup"]
+
+
+def spec_of_part(part):
+    """The sounding notes of a part read off the part itself (iter_all and the attributes of the notes; not the code under
+    test): the specification of a part the harness did not build (the parts of an unfolded score).
+    Returns (spec, {id: object}) or (None, reason)."""
+    import partitura.score as S
+    notes = [o for o in part.iter_all(S.GenericNote, include_subclasses=True) if not isinstance(o, S.Rest)]
+    ids = [o.id for o in notes]
+    if len(set(ids)) != len(ids) or any(not isinstance(i, str) for i in ids):
+        return None, "note ids not unique"
+    inside = {id(o) for o in notes}
+    out = []
+    for o in notes:
+        for l in (o.tie_next, o.tie_prev):
+            if l is not None and id(l) not in inside:
+                return None, "tie link leaving the part"
+        if (o.tie_next is not None and o.tie_next.tie_prev is not o) or (o.tie_prev is not None and o.tie_prev.tie_next is not o):
+            return None, "tie links not mutual"
+        if o.start is None or o.end is None:
+            return None, "note without time"
+        n = dict(id=o.id, s=int(o.start.t), e=int(o.end.t), step=o.step, alter=(None if o.alter is None else int(o.alter)),
+                 oct=int(o.octave), voice=(None if o.voice is None else int(o.voice)), staff=(None if o.staff is None else int(o.staff)))
+        if isinstance(o, S.GraceNote):
+            n["grace"] = o.grace_type
+        if o.tie_next is not None:
+            n["tie_next"] = o.tie_next.id
+        out.append(n)
+    qd = [[int(t), int(q)] for t, q in part.quarter_durations()]
+    if len({q for _, q in qd}) != 1:
+        return None, "several divisions"
+    spec = {"id": part.id, "qd": qd[:1], "ts": [], "ks": [], "measures": [], "notes": out,
+            "total": max([n["e"] for n in out] + [0]), "read_off": True}
+    return spec, {o.id: o for o in notes}
+
+
+def untied_notes(spec):
+    targets = {n["tie_next"] for n in spec["notes"] if n.get("tie_next")}
+    return [n for n in spec["notes"] if not n.get("rest") and not n.get("tie_next") and n["id"] not in targets]
+
+
+def renumber_shape(shape):
+    """(leaves in order, the same arrangement with the leaves numbered 0, 1, ... in that order)."""
+    leaves = shape_leaves(shape)
+    pos = {o: i for i, o in enumerate(leaves)}
+
+    def go(sh):
+        return [pos[x] if isinstance(x, int) else go(x) for x in sh]
+    return leaves, go(shape)
+
+
+def gen_session(rng):
+    """A container, 1-3 changes through the public API, readings before and after every change."""
+    for _ in range(6):
+        specs = gen_score_specs(rng)[:6]
+        if len(specs) >= 3:
+            break
+    n_spare = 0 if len(specs) < 2 else (1 if len(specs) < 4 else rng.randint(1, 2))
+    spares, specs = specs[len(specs) - n_spare:], specs[:len(specs) - n_spare]
+    kind = rng.choice(SESSION_KINDS)
+    is_score = kind.startswith("score")
+    shape = list(range(len(specs))) if kind == "score" else gen_shape(rng, len(specs))
+    # repeats: what unfold_part_maximal plays twice
+    # (the same measures in every part: the parts of a score share the metrical layout also after the unfolding)
+    nm = min(len(sp["measures"]) for sp in specs + spares)
+    if is_score and nm >= 2 and rng.random() < 0.7:
+        i = rng.randrange(0, nm - 1)
+        j = rng.randrange(i, nm)
+        for sp in specs + spares:
+            sp["repeat"] = [sp["measures"][i][0], sp["measures"][j][1]]
+    osets = option_sets(rng, OPT_NAMES, 2)
+    o_main, u_main = rng.choice(osets), rng.random() < 0.6
+
+    def read():
+        if is_score:
+            via = rng.choice(SCORE_READS)
+        elif kind == "list":
+            via = rng.choice(["from_list", "from_list", "ensure_list"])
+        else:
+            via = rng.choice(["partgroup", "partgroup", "ensure_partgroup", "from_list"])
+        same = rng.random() < 0.6          # the same call again: what a cache would serve
+        return {"do": "read", "via": via, "uniq": u_main if same else (rng.random() < 0.5),
+                "opts": dict(o_main if same else rng.choice(osets))}
+
+    # a part that is completed later: it starts with some of its notes
+    pending = {}
+    for k, sp in enumerate(specs):
+        if len(sp["notes"]) >= 2 and len(sp["notes"]) <= 20 and rng.random() < 0.5:
+            ids = [x["id"] for x in sp["notes"]]
+            first = set(rng.sample(ids, rng.randint(1, len(ids) - 1)))
+            full = sp["notes"]
+            specs[k] = sub_spec(sp, first)
+            by = {n["id"]: n for n in full}
+            pending[k] = {"add": [n for n in full if n["id"] not in first],
+                          "ties": [[n["id"], n["tie_next"]] for n in full if n.get("tie_next") and
+                                   (n["id"] not in first or n["tie_next"] not in first)]}
+    steps = [read()]
+    n_leaves = len(specs)
+    cur_shape = list(shape)
+    unfolded = False
+    fresh = [0]
+    for _ in range(rng.randint(1, 3)):
+        r = rng.random()
+        if pending and not unfolded and r < 0.3:
+            k = sorted(pending)[0]
+            # part k is still the k-th leaf (completions are dropped as soon as a member is replaced or appended)
+            steps.append(dict(pending.pop(k), do="edit", leaf=k))
+        elif r < 0.45:
+            k = rng.randrange(n_leaves)
+            if rng.random() < 0.5:
+                fresh[0] += 1
+                s0 = rng.randrange(0, 8)
+                steps.append({"do": "edit", "leaf": k, "ties": [],
+                              "add": [dict(id="x%d" % fresh[0], s=s0, e=s0 + rng.randint(1, 4), step=rng.choice(STEPS), alter=None,
+                                           oct=rng.randint(2, 6), voice=rng.choice([None, 0, 1, 2]), staff=rng.choice([None, 1, 2]))]})
+            elif rng.random() < 0.5:
+                steps.append({"do": "edit", "leaf": k, "add": [], "ties": [], "remove_untied": rng.randrange(0, 8)})
+            else:
+                steps.append({"do": "edit", "leaf": k, "add": [], "ties": [], "attrs": gen_attr_edits(rng)})
+        elif is_score and r < 0.75 and spares and not unfolded:     # (a folded part next to unfolded ones: another layout)
+            i = rng.randrange(n_leaves)
+            steps.append({"do": "setitem", "index": i, "spec": spares.pop()})
+            pending.pop(i, None)
+        elif is_score:
+            steps.append({"do": "unfold", "how": rng.choice(["maximal", "maximal", "minimal"])})
+            unfolded = True
+            pending.clear()
+        elif r < 0.75 and spares:
+            if rng.random() < 0.6:
+                i = rng.randrange(len(cur_shape))
+                steps.append({"do": "setmember", "index": i, "spec": spares.pop()})
+                n_leaves += 1 - len(shape_leaves([cur_shape[i]]))
+                cur_shape = cur_shape[:i] + [-1] + cur_shape[i + 1:]          # bookkeeping of positions only
+            else:
+                steps.append({"do": "append", "spec": spares.pop()})
+                cur_shape = cur_shape + [-1]
+                n_leaves += 1
+            pending.clear()       # positions moved: the later completion would name another leaf
+        else:
+            k = rng.randrange(n_leaves)
+            steps.append({"do": "edit", "leaf": k, "add": [], "ties": [], "remove_untied": rng.randrange(0, 8)})
+        for _ in range(rng.randint(1, 2)):
+            steps.append(read())
+    return {"kind": "session", "container": kind, "specs": specs, "shape": shape, "steps": steps}
+
+
+def c_leaf(spec, part):
+    am = all_maps(part, spec)
+    if am["errors"]:
+        return None
+    return "(ILeaf %s %s %s)" % (c_notes(spec), c_maps(am), cz(spec_divs(spec)))
+
+
+def c_rtree(shape):
+    return "(%s : list rtree)" % clist(["(RLeaf %s)" % cz(x) if isinstance(x, int) else "(RGroup %s)" % c_rtree(x) for x in shape])
+
+
+SESSION_CHECKER = "fun c => match c with (st, members, steps) => session_case_ok st members steps end"
+
+
+def run_session(sess, want_term=False):
+    """Execute a session on the implementation.  Returns a dict: fail = None | (index of the step, message),
+    term = Coq term of the session (when asked for and available), reads, notes (what happened)."""
+    import partitura.score as S
+    import partitura.utils.music as M
+    kind = sess["container"]
+    is_score = kind.startswith("score")
+    pobjs = []
+    info = {"fail": None, "term": None, "reads": 0, "notes": [], "grew": False}
+    hsteps = []
+    term_ok = [want_term]
+
+    def new_pobj(spec, part=None, objs=None):
+        if part is None:
+            part, objs = build_part(spec)
+        pobjs.append({"spec": spec, "part": part, "objs": objs})
+        return len(pobjs) - 1
+
+    def put_term(o):
+        if term_ok[0]:
+            t = c_leaf(pobjs[o]["spec"], pobjs[o]["part"])
+            if t is None:
+                term_ok[0] = False
+            return t
+
+    store0 = []
+    for sp in sess["specs"]:
+        o = new_pobj(sp)
+        store0.append("(%s, %s)" % (cz(o), put_term(o)))
+    shape = json.loads(json.dumps(sess["shape"]))
+    members = build_members(shape, [po["part"] for po in pobjs])
+    score = group = None
+    flat = None
+    if is_score:
+        score = S.Score(list(members) if kind == "score_of_groups" else [po["part"] for po in pobjs])
+        flat = shape_leaves(shape)
+    elif kind == "partgroup":
+        group = S.PartGroup(group_name="all")
+        group.children = members
+
+    for si, st in enumerate(sess["steps"]):
+        do = st["do"]
+        leaves = flat if is_score else shape_leaves(shape)
+        if do == "read":
+            via, uniq, opts = st["via"], st["uniq"], st["opts"]
+            if is_score:
+                eff = list(range(len(leaves)))
+            else:
+                _, eff = renumber_shape(shape)
+            cur_specs = [pobjs[o]["spec"] for o in leaves]
+            cur_parts = [pobjs[o]["part"] for o in leaves]
+            if any(sp["notes"] and (p.first_point is None or p.first_point is p.last_point) for sp, p in zip(cur_specs, cur_parts)):
+                # a timeline with ONE time point (a lone grace note, no measures): the part's quarter / beat maps are 0 everywhere
+                # (the maps are C02's subject and this check's reference), so its rows are ordered by a beat that says nothing
+                info["notes"].append("degenerate_timeline")
+                continue
+            per_part, L, errs = expected_score_rows(cur_specs, cur_parts, opts)
+            if errs:
+                info["notes"].append("map_unavailable")
+                continue
+            kw = dict(unique_id_per_part=uniq, **opts)
+            try:
+                if is_score:
+                    if via == "score":
+                        arr = score.note_array(**kw)
+                    elif via == "ensure_score":
+                        arr = M.ensure_notearray(score, **kw)
+                    elif via == "from_list":
+                        arr = M.note_array_from_part_list(list(cur_parts), **kw)
+                    elif via == "ensure_list":
+                        arr = M.ensure_notearray(list(cur_parts), **kw)
+                    else:
+                        g = S.PartGroup(group_name="all")
+                        g.children = list(cur_parts)
+                        arr = g.note_array(**kw) if via == "partgroup" else M.ensure_notearray(g, **kw)
+                elif via == "from_list":
+                    arr = M.note_array_from_part_list(members, **kw)
+                elif via == "ensure_list":
+                    arr = M.ensure_notearray(members, **kw) if shape_is_flat(shape) else M.note_array_from_part_list(members, **kw)
+                elif via == "partgroup":
+                    arr = group.note_array(**kw)
+                else:
+                    arr = M.ensure_notearray(group, **kw)
+            except Exception as e:
+                info["fail"] = (si, "%s raised %s: %s" % (via, type(e).__name__, e))
+                return info
+            status, msg, rows, names, _ = judge_score_array(arr, cur_specs, per_part, opts, uniq, eff)
+            info["reads"] += 1
+            if status == "FAIL":
+                info["got"] = [{k: v for k, v in r.items() if not k.startswith("_")} for r in (rows or [])]
+                info["expected"] = [{k: v for k, v in r.items() if not k.startswith("_")} for rr in per_part for r in rr]
+                what = {"score": "Score.note_array()", "ensure_score": "ensure_notearray(score)"}.get(via, via) if is_score else via
+                info["fail"] = (si, "reading %d (step %d, %s, unique_id_per_part=%s, %s) is not the table of the parts the %s holds at that "
+                                "moment (%s): %s" % (info["reads"], si, what, uniq, fmt_opts(opts),
+                                                      "score" if is_score else kind, [s["id"] for s in cur_specs], msg))
+                return info
+            if term_ok[0]:
+                o7 = dict(opts)
+                o7["include_divs_per_quarter"] = "divs_pq" in names
+                obs = "(%s : list obs)" % clist([c_obs(r, names, obs_id=r["_canon_id"]) for r in rows])
+                if is_score:
+                    view = "VScore" if via in ("score", "ensure_score") else "(VParts %s)" % CONTAINER[via]
+                else:
+                    view = "(VMembers %s)" % ("CList" if (via in ("from_list", "ensure_list")) else "CGroup")
+                hsteps.append("(HRead %s %s %s %s)" % (view, cbool(uniq), c_opts(o7), obs))
+        elif do == "edit":
+            if not leaves:
+                continue
+            o = leaves[st["leaf"] % len(leaves)]
+            po = pobjs[o]
+            spec = dict(po["spec"])
+            notes = [dict(n) for n in spec["notes"]]
+            have = {n["id"] for n in notes}
+            if "remove_untied" in st:
+                cand = untied_notes(spec)
+                if not cand:
+                    continue
+                victim = cand[st["remove_untied"] % len(cand)]
+                po["part"].remove(po["objs"][victim["id"]])
+                notes = [n for n in notes if n["id"] != victim["id"]]
+            add = [dict(n) for n in st.get("add", []) if n["id"] not in have]
+            if add:
+                add_notes(po["part"], po["objs"], add)
+                notes += add
+                have |= {n["id"] for n in add}
+                by = {n["id"]: n for n in notes}
+                for a, b in st.get("ties", []):
+                    if a in have and b in have:
+                        by[a]["tie_next"] = b
+                for n in notes:
+                    if n.get("tie_next") and n["tie_next"] not in have:
+                        n.pop("tie_next")
+                link_notes(po["objs"], notes)
+            spec["notes"] = notes
+            if st.get("attrs"):
+                spec = apply_attr_edits(spec, po["objs"], st["attrs"])
+            po["spec"] = spec
+            hsteps.append("(HOp (OPut %s %s))" % (cz(o), put_term(o)))
+        elif do in ("setitem", "setmember", "append"):
+            o = new_pobj(st["spec"])
+            hsteps.append("(HOp (OPut %s %s))" % (cz(o), put_term(o)))
+            if do == "setitem":
+                i = st["index"] % len(flat)
+                score[i] = pobjs[o]["part"]
+                flat = flat[:i] + [o] + flat[i + 1:]
+                hsteps.append("(HOp (OSetPart %d %s))" % (i, cz(o)))
+            elif do == "setmember":
+                i = st["index"] % len(members)
+                members[i] = pobjs[o]["part"]
+                shape[i] = o
+                hsteps.append("(HOp (OSetMember %d %s))" % (i, cz(o)))
+            else:
+                members.append(pobjs[o]["part"])
+                shape.append(o)
+                hsteps.append("(HOp (OAppend %s))" % cz(o))
+        elif do == "unfold":
+            try:
+                new_score = (S.unfold_part_maximal if st["how"] == "maximal" else S.unfold_part_minimal)(score)
+            except Exception as e:       # unfolding itself is C09's subject
+                info["notes"].append("unfold_raised:%s" % type(e).__name__)
+                break
+            new_flat = []
+            bad = None
+            for p in list(new_score):
+                sp, objs = spec_of_part(p)
+                if sp is None:
+                    bad = objs
+                    break
+                new_flat.append((sp, p, objs))
+            if bad:
+                info["notes"].append("unfold_unreadable:" + bad)
+                break
+            before = sum(len(spec_heads(pobjs[o]["spec"])) for o in flat)
+            score = new_score
+            flat = []
+            for sp, p, objs in new_flat:
+                o = new_pobj(sp, p, objs)
+                flat.append(o)
+                hsteps.append("(HOp (OPut %s %s))" % (cz(o), put_term(o)))
+            hsteps.append("(HOp (OUnfold %s))" % clist([cz(o) for o in flat]))
+            if sum(len(spec_heads(pobjs[o]["spec"])) for o in flat) != before:
+                info["grew"] = True
+            info["notes"].append("unfolded")
+    if want_term and term_ok[0]:
+        info["term"] = "((%s : list (Z * itree)), %s, (%s : list hstep))" % (clist(store0), c_rtree(sess["shape"]), clist(hsteps))
+    return info
+
+
+def shrink_session(sess):
+    """Cut the session after the failing reading, drop every step and shrink every note list that is not needed."""
+    res = run_session(sess)
+    if not res["fail"]:
+        return sess
+    cls = failure_class(res["fail"][1].split("): ", 1)[-1])
+
+    def fails(x):
+        try:
+            r = run_session(x)
+        except Exception:
+            return False
+        return bool(r["fail"]) and failure_class(r["fail"][1].split("): ", 1)[-1]) == cls
+    cur = dict(sess, steps=sess["steps"][:res["fail"][0] + 1])
+    i = len(cur["steps"]) - 2
+    while i >= 0:
+        cand = dict(cur, steps=cur["steps"][:i] + cur["steps"][i + 1:])
+        if fails(cand):
+            cur = cand
+        i -= 1
+    named = {n["id"] for st in cur["steps"] if st["do"] == "edit" for n in st.get("add", [])} | \
+            {x for st in cur["steps"] if st["do"] == "edit" for t in st.get("ties", []) for x in t}
+    for k in range(len(cur["specs"])):
+        if any(n["id"] in named for n in cur["specs"][k]["notes"]):
+            continue
+
+        def f(sp, k=k):
+            ss = list(cur["specs"])
+            ss[k] = sp
+            return fails(dict(cur, specs=ss))
+        try:
+            ss = list(cur["specs"])
+            ss[k] = shrink_spec(cur["specs"][k], f)
+            cur = dict(cur, specs=ss)
+        except Exception:
+            pass
+    for j, st in enumerate(cur["steps"]):
+        if "spec" in st:
+            def g(sp, j=j):
+                steps = list(cur["steps"])
+                steps[j] = dict(steps[j], spec=sp)
+                return fails(dict(cur, steps=steps))
+            try:
+                steps = list(cur["steps"])
+                steps[j] = dict(st, spec=shrink_spec(st["spec"], g))
+                cur = dict(cur, steps=steps)
+            except Exception:
+                pass
+    return cur
+
+
+def stage_sessions(ctx, n, n_coq):
+    rng = ctx.rng
+    terms, cases = [], []
+    for si in range(n):
+        sess = gen_session(rng)
+        try:
+            res = run_session(sess, want_term=len(terms) < n_coq)
+        except Exception as e:
+            ctx.violation("session (state carried between calls) could not be executed: %s: %s" % (type(e).__name__, e), dict(sess, message=str(e)))
+            continue
+        ctx.evaluations += res["reads"]
+        ctx.count("session:container=" + sess["container"])
+        for st in sess["steps"]:
+            if st["do"] != "read":
+                ctx.count("session:op=" + st["do"] + (":" + st["how"] if st["do"] == "unfold" else ""))
+        for x in res["notes"]:
+            ctx.count("session:" + x)
+        if res["grew"]:
+            ctx.count("session:unfolding_changed_the_rows")
+        ctx.count("session:" + ("FAIL" if res["fail"] else "ok"))
+        if res["fail"]:
+            small = shrink_session(sess)
+            r2 = run_session(small)
+            msg = (r2["fail"] or res["fail"])[1]
+            ctx.violation("%s kept between calls, changed (%s) and read again: %s"
+                          % (sess["container"], ", ".join(st["do"] for st in small["steps"] if st["do"] != "read") or "nothing", msg),
+                          dict(small, message=msg))
+            continue
+        ctx.nontrivial(("session", sess))
+        if res["term"]:
+            terms.append(res["term"])
+            cases.append(sess)
+        if si < 1:
+            ctx.sample({"session": {k: v for k, v in sess.items() if k != "specs"}})
+    run_coq(ctx, "session", terms, cases, SESSION_CHECKER,
+            "model state machine (Model/C05_Hist.v: part objects, Score.parts / part_structure, list, PartGroup.children; edit in "
+            "place, score[i] = part, members[i] = part, append, unfold_part_*) read after every step = every reading of the session")
+
+
 # ---- inverse direction
 
 
@@ -1440,8 +1987,15 @@ def gen_inverse_case(rng):
     case = {"kind": kind, "divs": divs, "rows": [[str(a), str(b), p] for a, b, p in rows],
             "voice": voices,
             "estimate_time": rng.random() < 0.4, "f8": rng.random() < 0.3,
-            "with_id": rng.random() < 0.3}
+            "with_id": rng.random() < 0.3,
+            "divs_as": rng.choice(["int", "int", "int64", "int32"])}     # the kind of number handed over as divs
     return case
+
+
+def divs_arg(case):
+    """divs as the kind of number the case names (Python int, numpy int64 / int32)."""
+    import numpy as np
+    return {"int64": np.int64, "int32": np.int32}.get(case.get("divs_as"), int)(case["divs"])
 
 
 def build_inverse_array(case):
@@ -1475,7 +2029,7 @@ def check_inverse(case):
     rows = [(Fraction(a), Fraction(b), p) for a, b, p in case["rows"]]
     kw = {}
     if case["kind"] == "div":
-        kw["divs"] = case["divs"]
+        kw["divs"] = divs_arg(case)
     if case["estimate_time"]:
         kw["estimate_time"] = True
     try:
@@ -1791,7 +2345,7 @@ def gen_metrical_case(rng):
             rows.append([ft, g * rng.randint(1, max(1, unit // g)), rng.randint(40, 88)])
     rows.sort()
     case = {"kind": kind, "divs": divs, "P": P, "measures": measures, "rows": rows, "tsmode": tsmode,
-            "f8": rng.random() < 0.25, "give_divs": rng.random() < 0.3,
+            "f8": rng.random() < 0.25, "give_divs": rng.random() < 0.3, "divs_as": rng.choice(["int", "int", "int64", "int32"]),
             "voice": gen_array_voices(rng, len(rows)) if rng.random() < 0.6 else None}
     if not met_first_row_uniform(case):
         case["give_divs"] = True              # documented limit of the inference ("possible error against div/beat")
@@ -1884,7 +2438,7 @@ def metrical_kwargs(c):
     if c["tsmode"] == "param":
         kw["time_sigs"] = [[0, c["measures"][0][2], c["measures"][0][3]]]
     if c["give_divs"] and c["kind"] == "both":
-        kw["divs"] = c["divs"]
+        kw["divs"] = divs_arg(c)
     return kw
 
 
@@ -2226,9 +2780,16 @@ def run(ctx):
                 "time signature from ts columns (40 %, half of them changing numerator and/or beat type, also returning), time_sigs, "
                 "estimate_time or none (20 % each), divisions 1..480, f4/f8, divs given 30 %, rows unsorted 30 %.  Histories: a part is "
                 "read, extended (notes, tie links) and read "
-                "again, half of them with identical options.  Distinct non-trivial = distinct (specification, options[, arrangement]) "
+                "again, half of them with identical options; 70 % go on: notes edited through their attributes (voice, staff, step, alter, "
+                "octave, id), a new key signature (45 %), new divisions (30 %), third reading.  Sessions (state carried between calls): a Score "
+                "(63 %, a third of them built from nested groups), a list or a PartGroup (18 % each) of 2-5 parts is kept, read, changed 1-3 times "
+                "(part completed / note added / note removed / attributes edited in place, score[i] = part, unfold_part_maximal / minimal(score) "
+                "with the same measures repeated in every part, members[i] = part, append) and read after every change through Score.note_array, "
+                "ensure_notearray(score) and the list / PartGroup entry points on the same parts, 60 % of the readings with the session's main "
+                "options; every reading is judged against the parts held at that moment; every returned array is written into by the harness.  "
+                "divs handed to note_array_to_score as Python int (50 %), numpy int64 or int32.  Distinct non-trivial = distinct (specification, options[, arrangement]) "
                 "whose specification has at least one of the counted features (parts), differing divisions / a part without notes / a "
-                "nested arrangement (scores), every history, every inverse case.")
+                "nested arrangement (scores), every history, every session, every inverse case.")
     ctx.trusted = ["Coq 8.16.1 kernel incl. vm_compute",
                    "harness/props/c05.py: generators, Coq printers, Python oracle (expected rows from the specification)",
                    "the part's own quarter/beat/key/time-signature/metrical maps as reference for those columns (C02/C10)",
@@ -2254,7 +2815,7 @@ def run(ctx):
     # C05-K1 (findings.d/C05.json): exactly the failure "a note / rest of the part states voice -1 and the voice column
     # says something else", everything else in the table being right
     ctx.matchers["C05-K1"] = is_k1
-    ok, why = ctx.coq_props(expect_min=45)
+    ok, why = ctx.coq_props(expect_min=52)
     if not ok:
         ctx.log("coq_props failed: " + why[:2000])
     mp_ok = probe_metrical_position()
@@ -2270,6 +2831,8 @@ def run(ctx):
     stage_history(ctx, n=(60 if quick else 500), mp_ok=mp_ok)
     ctx.log("scores")
     stage_scores(ctx, n_scores=(75 if quick else 800), mp_ok=mp_ok, full_every=(0 if quick else 30))
+    ctx.log("sessions (state carried between calls)")
+    stage_sessions(ctx, n=(120 if quick else 1500), n_coq=(40 if quick else 300))
     ctx.log("inverse direction")
     stage_inverse(ctx, n_cases=(160 if quick else 2500), n_metrical=(220 if quick else 2500))
     if not ok and len(ctx.violations) == nv0:
@@ -2320,7 +2883,19 @@ def replay(obj):
     elif kind == "dispatch":
         print("oracle:", check_dispatch(r["spec"], r["opts"], {k: v for k, v in r["opts"].items() if k in REST_OPT_NAMES}))
     elif kind == "history":
-        print("oracle:", check_history(r["spec"], r["first_ids"], r["opts1"], r["opts2"], r.get("rests", False))[:2])
+        print("oracle:", check_history(r["spec"], r["first_ids"], r["opts1"], r["opts2"], r.get("rests", False), r.get("third"))[:2])
+    elif kind == "session":
+        print("container:", r["container"], " arrangement of the parts:", r["shape"])
+        print("initial specifications:", json.dumps(r["specs"]))
+        for i, st in enumerate(r["steps"]):
+            print("step %d:" % i, json.dumps(st))
+        res = run_session(r)
+        print("what happened:", res["notes"], " readings judged:", res["reads"])
+        print("oracle:", res["fail"])
+        if res["fail"]:
+            print("implementation (the failing reading):\n" + "\n".join(str(x) for x in res.get("got", [])))
+            print("rows of the parts held at that moment (ids without part prefix; any order within equal onset, pitch):\n"
+                  + "\n".join(str(x) for x in sorted(res.get("expected", []), key=lambda x: (x["onset_div"], x["pitch"]))))
     elif kind == "inverse":
         print("array:\n", build_inverse_array(r["case"]))
         print("oracle:", check_inverse(r["case"])[0])
